@@ -1,9 +1,183 @@
 import Driver.Util
+import MpcVerif.Model.Mpcl
+
+/-!
+Line-protocol handler of property C03.
+
+`c03 <inputs> <program tokens...>`
+
+`<inputs>` is `all` (every wire pattern of all `main` arguments, argument 0 in
+the low bits of the counter) or `v,v;v,v;...` (hex wire patterns, one tuple per
+evaluation).  The program is an S-expression whose tokens are separated by
+blanks (so the argument list *is* the token list):
+
+  type  T ::= b | i<w> | u<w> | ( A n T ) | ( S T* )
+  expr  e ::= ( L T n ) | ( V x ) | ( B op e e ) | ( SH l|r e k ) | ( N e ) | ( M e )
+            | ( C T e ) | ( I e e ) | ( F e k ) | ( K f e* )
+  lval  l ::= ( x acc* )          acc ::= ( i e ) | ( f k )
+  stmt  s ::= ( D x T ) | ( D x T e ) | ( DEF ( x* ) e ) | ( A ( l* ) e )
+            | ( IF e ( s* ) ( s* ) ) | ( FOR i lo cmp hi step ( s* ) ) | ( R e* )
+  func    ::= ( FN nres ( ( x T )* ) ( s* ) )
+  prog    ::= ( P main func* )
+
+Result: per evaluation the outputs' wire patterns in hex joined by `,`,
+evaluations joined by `;`; `E` for an evaluation on which the reference
+semantics is undefined.
+-/
 
 namespace Drv.C03
+open Mpc.Mpcl
 
-/-- Line-protocol handler of property C03 (stub). -/
-def handle (_args : List String) : String := "bad-op"
+inductive SExp where
+  | atom (s : String)
+  | list (xs : List SExp)
+  deriving Inhabited
+
+partial def parseList (toks : List String) (acc : List SExp) : Option (List SExp × List String) :=
+  match toks with
+  | [] => none
+  | ")" :: r => some (acc.reverse, r)
+  | "(" :: r =>
+    match parseList r [] with
+    | some (xs, r') => parseList r' (.list xs :: acc)
+    | none => none
+  | t :: r => parseList r (.atom t :: acc)
+
+def parseSExp (toks : List String) : Option SExp :=
+  match toks with
+  | "(" :: r =>
+    match parseList r [] with
+    | some (xs, []) => some (.list xs)
+    | _ => none
+  | _ => none
+
+def parseInt (s : String) : Option Int :=
+  if s.startsWith "-" then (s.drop 1).toString.toNat?.map fun n => -(n : Int)
+  else s.toNat?.map fun n => (n : Int)
+
+partial def toTy : SExp → Option Ty
+  | .atom "b" => some .bool
+  | .atom s =>
+    if s.startsWith "i" then (s.drop 1).toString.toNat?.map Ty.int
+    else if s.startsWith "u" then (s.drop 1).toString.toNat?.map Ty.uint
+    else none
+  | .list [.atom "A", .atom n, t] => do some (.arr (← n.toNat?) (← toTy t))
+  | .list (.atom "S" :: ts) => do some (.struct (← ts.mapM toTy))
+  | _ => none
+
+def toBinOp : String → Option BinOp
+  | "add" => some .add | "sub" => some .sub | "mul" => some .mul | "div" => some .div
+  | "mod" => some .mod | "and" => some .band | "or" => some .bor | "xor" => some .bxor
+  | "clr" => some .bclr | "eq" => some .eq | "ne" => some .ne | "lt" => some .lt
+  | "le" => some .le | "gt" => some .gt | "ge" => some .ge | "land" => some .land
+  | "lor" => some .lor | _ => none
+
+def toCmp : String → Option Cmp
+  | "lt" => some .lt | "le" => some .le | "gt" => some .gt | "ge" => some .ge | "ne" => some .ne
+  | _ => none
+
+def atomStr : SExp → Option String
+  | .atom s => some s
+  | _ => none
+
+partial def toExpr : SExp → Option Expr
+  | .list [.atom "L", t, .atom n] => do some (.lit (← toTy t) (← n.toNat?))
+  | .list [.atom "V", .atom x] => some (.var x)
+  | .list [.atom "B", .atom op, a, b] => do some (.bin (← toBinOp op) (← toExpr a) (← toExpr b))
+  | .list [.atom "SH", .atom d, a, .atom k] => do
+    if d != "l" && d != "r" then none else some (.shift (d == "l") (← toExpr a) (← k.toNat?))
+  | .list [.atom "N", a] => do some (.not (← toExpr a))
+  | .list [.atom "M", a] => do some (.neg (← toExpr a))
+  | .list [.atom "C", t, a] => do some (.cast (← toTy t) (← toExpr a))
+  | .list [.atom "I", a, i] => do some (.idx (← toExpr a) (← toExpr i))
+  | .list [.atom "F", a, .atom k] => do some (.fld (← toExpr a) (← k.toNat?))
+  | .list (.atom "K" :: .atom f :: args) => do some (.call (← f.toNat?) (← args.mapM toExpr))
+  | _ => none
+
+def toAcc : SExp → Option Acc
+  | .list [.atom "i", e] => (toExpr e).map Acc.idx
+  | .list [.atom "f", .atom k] => k.toNat?.map Acc.fld
+  | _ => none
+
+def toLVal : SExp → Option LVal
+  | .list (.atom x :: accs) => do some ⟨x, ← accs.mapM toAcc⟩
+  | _ => none
+
+partial def toStmt : SExp → Option Stmt
+  | .list [.atom "D", .atom x, t] => do some (.decl x (← toTy t) none)
+  | .list [.atom "D", .atom x, t, e] => do some (.decl x (← toTy t) (some (← toExpr e)))
+  | .list [.atom "DEF", .list xs, e] => do some (.define (← xs.mapM atomStr) (← toExpr e))
+  | .list [.atom "A", .list lvs, e] => do some (.assign (← lvs.mapM toLVal) (← toExpr e))
+  | .list [.atom "IF", c, .list th, .list el] => do
+    some (.ifte (← toExpr c) (← th.mapM toStmt) (← el.mapM toStmt))
+  | .list [.atom "FOR", .atom i, .atom lo, .atom c, .atom hi, .atom st, .list body] => do
+    some (.for i (← parseInt lo) (← toCmp c) (← parseInt hi) (← parseInt st) (← body.mapM toStmt))
+  | .list (.atom "R" :: es) => do some (.ret (← es.mapM toExpr))
+  | _ => none
+
+def toParam : SExp → Option (String × Ty)
+  | .list [.atom x, t] => (toTy t).map fun t => (x, t)
+  | _ => none
+
+def toFunc : SExp → Option Func
+  | .list [.atom "FN", .atom n, .list ps, .list body] => do
+    some ⟨← ps.mapM toParam, ← n.toNat?, ← body.mapM toStmt⟩
+  | _ => none
+
+def toProg : SExp → Option (Nat × Prog)
+  | .list (.atom "P" :: .atom m :: fs) => do some (← m.toNat?, ← fs.mapM toFunc)
+  | _ => none
+
+def hexDigit (n : Nat) : Char :=
+  if n < 10 then Char.ofNat (48 + n) else Char.ofNat (87 + n)
+
+partial def hexOfNat (n : Nat) : String :=
+  if n < 16 then String.singleton (hexDigit n) else hexOfNat (n / 16) ++ String.singleton (hexDigit (n % 16))
+
+def hexVal (c : Char) : Option Nat :=
+  if '0' ≤ c ∧ c ≤ '9' then some (c.toNat - 48)
+  else if 'a' ≤ c ∧ c ≤ 'f' then some (c.toNat - 87)
+  else none
+
+def natOfHex (s : String) : Option Nat :=
+  if s.isEmpty then none else
+  s.toList.foldlM (fun acc c => (hexVal c).map fun d => acc * 16 + d) 0
+
+/-- Large enough for every generated program (the interpreter spends one unit
+per nesting level / statement / loop iteration, not per operation). -/
+def fuel : Nat := 100000
+
+def evalOne (P : Prog) (main : Nat) (args : List Nat) : String :=
+  match runRaw P fuel main args with
+  | some rs => ",".intercalate (rs.map fun (v, _) => hexOfNat v)
+  | none => "E"
+
+/-- Split a counter into the arguments' wire patterns (argument 0 lowest). -/
+def splitCounter : List Nat → Nat → List Nat
+  | [], _ => []
+  | w :: ws, c => c % 2 ^ w :: splitCounter ws (c >>> w)
+
+def handle (args : List String) : String :=
+  match args with
+  | inp :: toks =>
+    match (parseSExp toks).bind toProg with
+    | none => "bad-program"
+    | some (main, P) =>
+      match P[main]? with
+      | none => "bad-program"
+      | some fn =>
+        if inp == "all" then
+          let ws := fn.params.map fun p => p.2.bits
+          let total := ws.foldl (· + ·) 0
+          if total > 20 then "bad-op" else
+          ";".intercalate ((List.range (2 ^ total)).map fun c => evalOne P main (splitCounter ws c))
+        else
+          let tuples := inp.splitOn ";"
+          ";".intercalate (tuples.map fun t =>
+            match (t.splitOn ",").mapM natOfHex with
+            | some vs => evalOne P main vs
+            | none => "bad-input")
+  | _ => "bad-op"
 
 end Drv.C03
 
